@@ -44,6 +44,8 @@ TRUSTED = [
     "crypto/uuid answers supplied as tables by the reference controller)",
     "harness/ref/pairverify_client.py (independent controller: pair-verify, frame codec, HTTP reader) on the "
     "`cryptography` primitives, harness/ref/tlv8.py, generators; cryptography/h11/uuid libraries; asyncio transport contract",
+    "rig configuration (generator dimension, invisible to the model by design): stock classes or application subclasses of "
+    "AccessoryDriver / Accessory overriding the public hooks in the usual style; IPv4 or IPv6 peer names",
     "uuid_to_bytes bookkeeping and persistence scheduling inside _pair_verify_two are not modelled (not observable here)",
 ]
 
@@ -154,11 +156,85 @@ class _InlineExecutor(_cf.ThreadPoolExecutor):
         return f
 
 
+def app_subclasses(driver_base, accessory_base):
+    """Application subclasses in the usual style (what e.g. Home Assistant's HomeDriver / HomeAccessory do): every public
+    hook is overridden, calls super() and adds (here: no) logic of its own.  Hooks without a documented return value return
+    nothing; hooks with a documented return value pass it through."""
+
+    class AppDriver(driver_base):
+        # ---- hooks without a documented return value
+        def unpair(self, client_uuid):
+            super().unpair(client_uuid)
+
+        def finish_pair(self):
+            super().finish_pair()
+
+        def connection_lost(self, client):
+            super().connection_lost(client)
+
+        def async_persist(self):
+            super().async_persist()
+
+        def persist(self):
+            super().persist()
+
+        def config_changed(self):
+            super().config_changed()
+
+        def async_update_advertisement(self):
+            super().async_update_advertisement()
+
+        def update_advertisement(self):
+            super().update_advertisement()
+
+        def async_subscribe_client_topic(self, client, topic, subscribe=True):
+            super().async_subscribe_client_topic(client, topic, subscribe)
+
+        def publish(self, data, sender_client_addr=None, immediate=False):
+            super().publish(data, sender_client_addr, immediate)
+
+        # ---- hooks with a documented return value
+        def pair(self, client_username_bytes, client_public, client_permissions):
+            return super().pair(client_username_bytes, client_public, client_permissions)
+
+        def get_accessories(self, *a, **kw):
+            return super().get_accessories(*a, **kw)
+
+        def get_characteristics(self, char_ids):
+            return super().get_characteristics(char_ids)
+
+        def set_characteristics(self, chars_query, client_addr):
+            return super().set_characteristics(chars_query, client_addr)
+
+        def prepare(self, prepare_query, client_addr):
+            return super().prepare(prepare_query, client_addr)
+
+    class AppAccessory(accessory_base):
+        def setup_message(self):
+            super().setup_message()
+
+        def publish(self, value, sender, sender_client_addr=None, immediate=False):
+            super().publish(value, sender, sender_client_addr, immediate)
+
+        async def run(self):
+            await super().run()
+
+        async def stop(self):
+            await super().stop()
+
+    return AppDriver, AppAccessory
+
+
 class World:
     """One accessory (real AccessoryDriver + State) with any number of real protocol objects."""
 
-    def __init__(self, rng, persist_file: Optional[str] = None):
-        """persist_file=None: saving is stubbed out (state lives in memory only).  With a path the real
+    def __init__(self, rng, persist_file: Optional[str] = None, cfg: Optional[Dict[str, Any]] = None):
+        """cfg: configuration of the rig (legal, non-default ways of running the same accessory):
+          driver = "stock" | "subclass"  the application uses AccessoryDriver / Accessory directly, or subclasses that
+                   override the public hook methods in the usual style (call super(), add own logic; hooks that have no
+                   documented return value return nothing, hooks with one pass it through);
+          family = "ipv4" | "ipv6"       peer names are (host, port) or (host, port, flowinfo, scope_id).
+        persist_file=None: saving is stubbed out (state lives in memory only).  With a path the real
         AccessoryDriver.persist()/load() are used (an existing file is loaded: a restart) and saves that
         async_persist hands to the executor are carried out at once."""
         import pyhap.accessory as accessory
@@ -168,6 +244,7 @@ class World:
         import time as _time
 
         self.rng = rng
+        self.cfg = dict(cfg or {})
         self.persist_file = persist_file
         self.clock_offset = 0.0  # virtual time: op "T" advances every clock the accessory can read
         real_mono, real_time = _time.monotonic, _time.time
@@ -184,14 +261,23 @@ class World:
             p.start()
         self.loop = asyncio.new_event_loop()
         asyncio.set_event_loop(self.loop)
-        if persist_file is not None:
+        if persist_file is not None or self.cfg.get("driver") == "subclass":
+            # (an overriding persist() reaches the stubbed-out base method only when it RUNS: a job still sitting in a
+            # thread pool when this world is closed would save for real)
             self.loop.set_default_executor(_InlineExecutor())
         import pyhap.loader as loader
+        import os as _os
 
-        self.driver = accessory_driver.AccessoryDriver(
-            loop=self.loop, persist_file=persist_file or "/tmp/verif-unused.state", loader=loader.get_loader()
+        self.unused_state = "/tmp/verif-unused-%d.state" % _os.getpid()
+
+        driver_cls, acc_cls = accessory_driver.AccessoryDriver, accessory.Accessory
+        if self.cfg.get("driver") == "subclass":
+            driver_cls, acc_cls = app_subclasses(accessory_driver.AccessoryDriver, accessory.Accessory)
+        kw = {"address": "::1"} if self.cfg.get("family") == "ipv6" else {}
+        self.driver = driver_cls(
+            loop=self.loop, persist_file=persist_file or self.unused_state, loader=loader.get_loader(), **kw
         )
-        self.driver.add_accessory(accessory.Accessory(self.driver, "Acc"))
+        self.driver.add_accessory(acc_cls(self.driver, "Acc"))
         self.hap_protocol = hap_protocol
         # the registry the real server would hand to its protocol objects
         self.connections: Dict[Any, Any] = self.driver.http_server.connections
@@ -209,11 +295,23 @@ class World:
             p.stop()
         self.loop.close()
         asyncio.set_event_loop(None)
+        try:
+            import os as _os
+
+            _os.unlink(self.unused_state)  # never written as long as saving is stubbed out; a later world must not load it
+        except OSError:
+            pass
+
+    def peer(self, c: int):
+        """Peer name of connection c as the transport of the configured address family reports it."""
+        if self.cfg.get("family") == "ipv6":
+            return ("fe80::%x" % (c + 1), 40000 + c, 0, 2 if c % 2 else 0)
+        return ("10.0.0.%d" % (c + 1), 40000 + c)
 
     def conn(self, c: int):
         if c not in self.protos:
             p = self.hap_protocol.HAPServerProtocol(self.loop, self.connections, self.driver)
-            t = FakeTransport(("10.0.0.%d" % (c + 1), 40000 + c))
+            t = FakeTransport(self.peer(c))
             p.connection_made(t)
             self.protos[c], self.transports[c], self.rconn[c] = p, t, RefConn()
         return self.protos[c], self.transports[c], self.rconn[c]
@@ -278,6 +376,23 @@ def canon_model(a: Dict[str, Any]) -> Dict[str, Any]:
 # ----------------------------------------------------------------------------- script execution
 
 
+def script_cfg(script) -> Dict[str, Any]:
+    """The rig configuration a script asks for ({"op": "config", "driver": .., "family": ..}; default: stock, IPv4)."""
+    cfg: Dict[str, Any] = {}
+    for op in script:
+        if op.get("op") == "config":
+            cfg.update({k: v for k, v in op.items() if k != "op"})
+    return cfg
+
+
+def CFG(driver="stock", family="ipv4"):
+    return {"op": "config", "driver": driver, "family": family}
+
+
+CONFIGS = [("subclass", "ipv4"), ("stock", "ipv6"), ("subclass", "ipv6")]
+
+
+
 class Runner:
     """Executes one abstract script on the real code, builds the concrete model line, judges."""
 
@@ -287,7 +402,8 @@ class Runner:
         self.ctx = ctx
         self.script = script
         self.krng = random.Random(keyseed)
-        self.w = World(self.krng)
+        self.cfg = script_cfg(script)
+        self.w = World(self.krng, cfg=self.cfg)
         # long-term signing keys of the controllers (index 0..3) + one never registered (index 9)
         self.sk = {j: rc.ed25519.Ed25519PrivateKey.from_private_bytes(self._rb(32)) for j in (0, 1, 2, 3, 9)}
         self.ref_paired: Dict[uuidlib.UUID, Dict[str, Any]] = {}  # reference's own record of the pairings
@@ -374,6 +490,10 @@ class Runner:
         if t.closed:
             self.outcomes.append("skipped-closed")
         return t.closed
+
+    def op_config(self, n, op):
+        """Configuration of the rig (read before the accessory is created): no operation of its own."""
+        self.outcomes.append("config")
 
     def op_T(self, n, op):
         """Time passes (every clock the accessory can read is advanced)."""
@@ -893,6 +1013,12 @@ def boundary_scripts() -> List[List[Dict[str, Any]]]:
         s.append([P(0), P(1, admin=False), V1(0), V3(0, i=1), L(0), V1(0), V3(0, i=0, **{"key": 0, **bogus}), L(0), G(0)])
     s.append([P(0), P(1, admin=False), L(0), V1(0), L(0), V3(0, i=0, key=9), L(0), V3(0, i=0), L(0), V1(0), V3(0, i=1, key=9), L(0)])
     s.append([P(0), P(1, admin=False), V1(0), V3(0, i=1), L(0), RP(0, 0), V1(0), V3(0, i=0), L(0), RP(0, 1), V1(1), V3(1, i=1), G(1)])
+    # ---- the rig configuration: application subclasses of AccessoryDriver / Accessory, IPv6 peer names
+    core = [s[0], s[3], s[6], s[8], s[-1], [P(0), P(1, admin=False), V1(0), V3(0), G(0), V1(1), V3(1, i=1), G(1), RP(0, 1), G(1), V1(2), V3(2, i=1), G(2),
+                                             RX(3), G(3), L(0), U(0), V1(4), V3(4), G(4)]]
+    for drv, fam in CONFIGS:
+        for sc in core:
+            s.append([CFG(drv, fam), *sc])
     return s
 
 
@@ -969,7 +1095,10 @@ def random_script(rng) -> List[Dict[str, Any]]:
 def gen_scripts(ctx: Ctx) -> List[List[Dict[str, Any]]]:
     scripts = boundary_scripts()
     for _ in range(ctx.n(300, 10000)):
-        scripts.append(random_script(ctx.rng))
+        sc = random_script(ctx.rng)
+        if ctx.rng.random() < 0.4:  # the rig configuration is a dimension of its own (default: stock classes, IPv4)
+            sc = [CFG(*ctx.rng.choice(CONFIGS)), *sc]
+        scripts.append(sc)
     return scripts
 
 
